@@ -596,7 +596,7 @@ func (e *Exec) convert(from, to types.Type, v Value) Value {
 				arr := &Loc{Comp: true, id: e.newLocID(), Typ: types.NewArray(sl.Elem(), int64(len(s.B)))}
 				arr.Kids = make([]*Loc, len(s.B))
 				for i, b := range s.B {
-					arr.Kids[i] = &Loc{V: b, Typ: sl.Elem()}
+					arr.Kids[i] = &Loc{V: b, Typ: sl.Elem(), Par: arr, Idx: i}
 				}
 				return SliceV{Arr: arr, Len: len(s.B), Cap: len(s.B)}
 			}
